@@ -145,11 +145,12 @@ def valid (env : Env) (known : List Known) (c : Cluster) : Bool :=
 
 /-- assumptions on the external parsers under which the consumers agree with the validation:
     `url.Parse` reports the scheme the prefix test saw, and client-go accepts as `Host` every URL that parses with
-    a scheme and a host (`rest.DefaultServerURL`, first branch). The harness checks both on every endpoint it
-    generates. -/
+    a scheme and a host (`rest.DefaultServerURL`, first branch); `strings.ToLower` is idempotent. The harness
+    checks the first two on every endpoint it generates. -/
 structure EnvOK (env : Env) : Prop where
   scheme_agrees : ∀ s u, env.urlParse s = some u → getURLScheme s ≠ [] → u.scheme = getURLScheme s
   rest_host : ∀ s u, env.urlParse s = some u → u.scheme ≠ [] → u.host ≠ [] → env.restHostOK s = true
+  lower_idem : ∀ s, env.lower (env.lower s) = env.lower s
 
 /-- the limiter sizes an accepted schema asks for -/
 def expectedLocal (s : Schema) : Option FlowCtl :=
